@@ -259,3 +259,14 @@ def replay(ctx, payload):
     ok = w.utcoffset() == Z.TD(seconds=Z.ts(w) - t) and w.astimezone(tz.UTC) == u
     print("zone=%s t=%d -> %s fold=%d utcoffset=%s back=%s" % (c["zone"], t, w.replace(tzinfo=None), w.fold, w.utcoffset(), w.astimezone(tz.UTC)))
     return ok
+
+
+# --- appended by the translator tie (wt-iso): the tz lookup functions re-translated from tz/tz.py and tz/_common.py
+# (Generated/TzKernels.lean, ops tzgen.*) are compared with the implementation's methods on every run
+_correspondence_without_tzgen = correspondence
+
+
+def correspondence(ctx):
+    _correspondence_without_tzgen(ctx)
+    import tzgenlib
+    tzgenlib.validate(ctx)
